@@ -1,0 +1,9 @@
+//go:build !verif
+
+// Package verifhook provides named instrumentation points for the verification
+// harness.  Without the `verif` build tag every point is a no-op that the
+// compiler inlines away.
+package verifhook
+
+// Point marks an instrumented step.  It never fails without the `verif` tag.
+func Point(name string, detail ...string) error { return nil }
